@@ -72,8 +72,8 @@ Proof.
     { destruct HeadT as [(ET&_&_)|Hw]; [apply stop_or_ws_multiarch; left; now rewrite ET|now destruct (ctlhead_facts _ Hw)]. }
     rewrite (multiarch_word (arch_string a) [] _ Hm Hstop). cbn [app]. rewrite (arch_named_ok _ _ Hok), Hrt.
     replace (set_arch (with_name fresh (c0 :: n0)) a) with (base (c0 :: n0) (Some a)) by reflexivity.
-    apply H2. lia.
+    rewrite H2 by lia. apply guard_added.
   - cbn [qual_text app]. replace (with_name fresh (c0 :: n0)) with (base (c0 :: n0) None) by reflexivity.
-    apply H2. lia.
+    rewrite H2 by lia. apply guard_added.
 Qed.
 Print Assumptions possi_any_order_ws.
